@@ -999,7 +999,8 @@ bool carquet_reader_is_mmap(const carquet_reader_t* reader);
  * @brief Check if zero-copy reading is possible for a column.
  *
  * Zero-copy requires:
- * - Memory-mapped I/O enabled
+ * - The file in memory: memory-mapped I/O enabled, or a reader opened with
+ *   carquet_reader_open_buffer() (values then point into the caller's buffer)
  * - Uncompressed data (no compression codec)
  * - PLAIN encoding
  * - Fixed-size physical type (INT32, INT64, FLOAT, DOUBLE, INT96, FIXED_LEN_BYTE_ARRAY)
